@@ -112,7 +112,8 @@ class fetcher(base.fetcher):
         if self.userpriv and is_userpriv_capable():
             spawn_opts.update({"uid": portage_uid, "gid": portage_gid})
 
-        for _attempt in range(self.attempts):
+        # verify before every attempt, and once more after the last one
+        for attempt in range(self.attempts + 1):
             try:
                 self._verify(path, target)
                 return path
@@ -131,6 +132,8 @@ class fetcher(base.fetcher):
                         raise errors.UnmodifiableFile(path, e) from e
                 else:
                     command = self.resume_command
+            if attempt == self.attempts:
+                break
             # Note we're not even checking the results, the verify portion of
             # the loop handles this. In other words, don't trust the external
             # fetcher's exit code, trust our chksums instead.
